@@ -114,7 +114,12 @@ impl StopController {
                     let state2 = dfa.transition(state, b);
                     // println!("state: {:?} -{:?}-> {:?}", state, b as char, state2);
                     state = state2;
-                    assert!(!state.is_dead());
+                    if state.is_dead() {
+                        // the bytes so far are not valid UTF-8 (e.g. a lone continuation
+                        // byte), so no stop sequence can span them; start matching afresh
+                        state = rx.initial_state;
+                        continue;
+                    }
                     if state.has_lowest_match() {
                         self.is_stopped = true;
                         rx.state = state;
